@@ -236,13 +236,23 @@ def coq_history(terms, steps):
                            '; '.join('(%s, [%s])' % (cop(op), '; '.join(coq_term(v) for v in view)) for op, view in steps))
 
 
+def run_elem(ra, a, b, r=None):
+  """`b in a`: UnifyListElement on fresh references; read-backs of the list and of the element."""
+  try:
+    x, y = build_ref(ra, a, r), build_ref(ra, b, r)
+    ra.UnifyListElement(x, y)
+    return read_back(ra, x), read_back(ra, y)
+  except Exception as e:  # the implementation must not crash on well-formed types
+    return 'Bad', 'Bad'
+
+
 def eval_cases(kind, chunks):
   """kind: 'judge' | 'judge3'.  chunks: list of lists of Coq case strings.  Returns flat list of ints or None."""
   from concurrent.futures import ThreadPoolExecutor
 
   def one(chunk):
     text = ('From Coq Require Import List. Import ListNotations.\n'
-            'From LV Require Import Types.TypeAlgebra Types.TypeHist Types.TypeCheck.\n'
+            'From LV Require Import Types.TypeAlgebra Types.TypeHist Types.TypeElem Types.TypeCheck.\n'
             'Definition cases := [\n%s\n].\n'
             'Eval vm_compute in map %s cases.\n' % (';\n'.join(chunk), kind))
     rc, out = coqrun.coq_eval(text, timeout=900)
@@ -284,6 +294,7 @@ def run(tier, replay=None):
     pairs = [(rp['a'], rp['b'])] if 'a' in rp else []
     triples = [tuple(rp['terms'])] if 'terms' in rp and 'ops' not in rp else []
     hists = [(rp['terms'], rp['ops'])] if 'ops' in rp else []
+    elems = [(rp['list'], rp['element'])] if 'element' in rp else []
   else:
     d1 = depth1_terms()
     pairs = [(a, b) for a in d1 for b in d1]
@@ -298,6 +309,14 @@ def run(tier, replay=None):
       a = rand_term(r, 3)
       triples.append((a, rand_related(r, a, 3), rand_related(r, a, 3)))
     hists = [gen_history(r) for _ in range(1500 if tier == 'quick' else 40000)]
+    # `b in a`: list side x element side over all depth-1 terms + random deeper ones
+    lists = ['Any', 'Sequential', 'Singular', 'Str', 'Num'] + [['list', t] for t in d1[:60:3]] + [['list', ['list', 'Num']]]
+    elems = [(a, b) for a in lists for b in d1[::2]]
+    for _ in range(2000 if tier == 'quick' else 60000):
+      b = rand_term(r, 2)
+      k = r.random()
+      a = ['list', rand_related(r, b, 2)] if k < 0.6 else (rand_term(r, 3) if k < 0.8 else r.choice(['Any', 'Sequential']))
+      elems.append((a, b))
 
   # --- implementation runs
   pair_cases, pair_laws = [], []
@@ -316,18 +335,22 @@ def run(tier, replay=None):
     tri_cases.append('(%s, %s, %s, [%s])' % (coq_term(ts[0]), coq_term(ts[1]), coq_term(ts[2]),
                                             '; '.join(coq_term(x) for x in rs)))
 
+  elem_obs = [run_elem(ra, a, b, r) for a, b in elems]
+  elem_cases = ['(%s, %s, %s, %s)' % (coq_term(a), coq_term(b), coq_term(x), coq_term(y)) for (a, b), (x, y) in zip(elems, elem_obs)]
   hist_steps = [run_history(ra, ts, ops, r) for ts, ops in hists]
   hist_cases = [coq_history(ts, st) for (ts, _), st in zip(hists, hist_steps)]
 
   # --- model side
-  codes = codes3 = codesh = None
+  codes = codes3 = codesh = codese = None
   if ok:
     codes, out = eval_cases('judge', chunked(pair_cases, 1500))
     if codes is not None:
       codes3, out = eval_cases('judge3', chunked(tri_cases, 500)) if tri_cases else ([], '')
     if codes3 is not None:
       codesh, out = eval_cases('judge_hist', chunked(hist_cases, 500)) if hist_cases else ([], '')
-    if codes is None or codes3 is None or codesh is None:
+    if codesh is not None:
+      codese, out = eval_cases('judge_elem', chunked(elem_cases, 1500)) if elem_cases else ([], '')
+    if codes is None or codes3 is None or codesh is None or codese is None:
       ok = False
       info['excerpt'] = out[-3000:]
 
@@ -361,6 +384,16 @@ def run(tier, replay=None):
               'law': 'for a clash-free set of constraints every unification order reads back the meet of all'})
       elif c == 1:
         broken_ties.append(ts)
+  if codese is not None:
+    for (a, b), (x, y), c in zip(elems, elem_obs, codese):
+      if c != 0:
+        found += 1
+        if found <= 8:
+          rep.violation('element:%s' % common.short_hash([a, b]), {
+              'list': a, 'element': b, 'observed': {'list': x, 'element': y},
+              'law': '`b in a`: the list admits exactly the lists of non-list values both sides admit, the element '
+                     'exactly their elements; a list as element is a clash (oracle: Types/TypeElem.v unify_list_element)',
+              'how': 'reference_algebra.UnifyListElement on fresh references built from the two terms'})
   if codesh is not None:
     for (ts, ops), st, c in zip(hists, hist_steps, codesh):
       if c != 0:
@@ -388,7 +421,8 @@ def run(tier, replay=None):
       'exhaustive': False,
       'samples': [{'a': pairs[i][0], 'b': pairs[i][1]} for i in (200, 5000, len(pairs) - 1) if i < len(pairs)] +
                  [{'terms': list(triples[0])}] if triples else [],
-      'distribution': {'pairs': len(pairs), 'triples': len(triples), 'histories': len(hists),
+      'distribution': {'pairs': len(pairs), 'triples': len(triples), 'histories': len(hists), 'element_pairs': len(elems),
+                       'element_tie_exact': (codese or []).count(0),
                        'history_steps': sum(len(st) for st in hist_steps), 'history_closes': sum(1 for st in hist_steps for op, _ in st if op[0] == 'close'),
                        'histories_ending_in_clash': sum(1 for st in hist_steps if st and any(has_bad(v) for v in st[-1][1])),
                        'history_tie_exact': (codesh or []).count(0), 'pairs_clash': stats['clash'],
